@@ -96,6 +96,8 @@ def run_case(rng, idx, tier, lane, ctx):
     if LC.share_caller_arrays(rng, c):
         cls.append("x0-ndarray-shared")
     try:
+        if rng.random() < 0.25:
+            LC.other_model_first(rng, c, counters)
         obj = LC.make_loss(c)
         if c.x0_as_array:
             counters["sibling_calls"] = LC.disturb_with_sibling(rng, c)
